@@ -1,4 +1,182 @@
-/- C17 — property theorems (stub; filled in by the owning work package). -/
-import Rdm.Basic
+/-
+  C17 — fatigue blurs every value by at most the fatigue ratio.
+  Property theorems only (helper lemmas: Rdm/Lemmas/BiasAFatigue.lean).  Model:
+  Rdm/Model/BiasesA.lean (`fatigueApply`, `fatigueBlur`), tied to the Go code bit-for-bit by the stage
+  `fatigue-apply` of harness/main/c17.go (`exp` is external: the blur stage is fed the ratio the code
+  reported; the formula of the ratio is checked with 1e-12 relative tolerance by `check-c17-ratio`).
+-/
+import Rdm.Lemmas.BiasAFatigue
+import Rdm.Lemmas.BiasAFatigueSpec
+import Rdm.Spec.C17
+set_option linter.unusedSectionVars false
+open Rdm Rdm.BiasA
 namespace Rdm.Props.C17
+variable {α : Type} [Num α]
+
+/-! ## the ratio -/
+
+theorem ratio_const (exp : α → α) (v : α) : fatigueRatio exp (.const v) = .ok v := rfl
+
+theorem ratio_expFromZero (exp : α → α) (a m : α) (q : Int) :
+    fatigueRatio exp (.expFromZero a m q) = .ok (m * exp (a * Num.ofInt q) - m) := rfl
+
+/-- the only law of `exp` that is needed: `exp 0 = 1` makes the ratio vanish at query 0 / alpha 0 -/
+theorem ratio_expFromZero_zero (exp : Rat → Rat) (h : exp 0 = 1) (a m : Rat) (q : Int)
+    (hq : a = 0 ∨ q = 0) : fatigueRatio exp (.expFromZero a m q) = .ok 0 := by
+  rw [ratio_expFromZero]
+  have : a * (Num.ofInt q : Rat) = 0 := by
+    rcases hq with rfl | rfl <;> simp
+  rw [this, h]; simp
+
+theorem unknown_function_rejected (exp : α → α) (n : String) (b : Bounding α) (cur : DMP α) (d : Draws α) :
+    ∃ e, fatigueApply exp (.unknown n) b cur d = .error e := ⟨_, rfl⟩
+
+/-- both generators of `main.go` are the same factory, created from the same seed: both streams are
+    the same numbers (regenerated wiring fact) -/
+theorem generators_share_the_stream :
+    Facts.wiringFatigueGenerators = ["RandomBasedSeedValueGenerator", "RandomBasedSeedValueGenerator"] := by
+  decide
+
+/-- `fatigueApply` feeds the same stream to the value and the sign generator -/
+theorem apply_uses_one_stream (exp : α → α) (fn : FatigueFn α) (b : Bounding α) (cur : DMP α) (d : Draws α) :
+    fatigueApply exp fn b cur d = (fatigueRatio exp fn >>= fun f => fatigueBlur f b cur d d) := rfl
+
+/-! ## the move before bounding -/
+
+/-- `|v' − v| ≤ |f·v|` for a draw in `[0,1)` and either sign -/
+theorem move_bounded (f v u s : Rat) (h0 : 0 ≤ u) (h1 : u < 1) :
+    Num.abs (preBound f v u s - v) ≤ Num.abs (f * v) := preBound_close f v u s h0 h1
+
+/-- `f = 0` leaves the value unchanged (before bounding) -/
+theorem zero_ratio_identity (v u s : Rat) : preBound 0 v u s = v := preBound_zero v u s
+
+/-- the sign takes both directions: up for a sign draw below ½, down from ½ on
+    (`Facts.fatigueSignHalf = ½`, read from the code) -/
+theorem sign_both_directions (f v u s : Rat) :
+    (s < 1 / 2 → preBound f v u s = v + v * u * f) ∧ (1 / 2 ≤ s → preBound f v u s = v - v * u * f) :=
+  ⟨preBound_up f v u s, preBound_down f v u s⟩
+
+theorem sign_threshold_is_half : (Num.ofConst Facts.fatigueSignHalf : Rat) = 1 / 2 := sign_half
+
+/-! ## bounding -/
+
+/-- over the rationals `BoundValue` is: raise to 0 when negatives are disallowed, then clip into the
+    range scaled about its centre (`[lo + d − d·σ, hi − d + d·σ]`, `d = (hi − lo)/2`) -/
+theorem bound_is_documented (b : Bounding Rat) (r : Rat × Rat) (hr : r.1 ≤ r.2) (x : Rat) :
+    b.bound r x = Spec.C17.boundSpec b r x :=
+  bound_eq_spec b r (fun hs => scaledRange_ordered hr hs) x
+
+/-- with a positive scaling the bounded value lies inside the scaled range -/
+theorem bounded_inside_scaled_range (b : Bounding Rat) (r : Rat × Rat) (hs : 0 < b.scaling)
+    (hr : r.1 ≤ r.2) (x : Rat) :
+    (Spec.C17.scaledRange r b.scaling).1 ≤ b.bound r x ∧ b.bound r x ≤ (Spec.C17.scaledRange r b.scaling).2 :=
+  bound_mem b r hs hr x
+
+/-- without range clipping, disallowing negative values yields a non-negative value -/
+theorem bounded_non_negative (b : Bounding Rat) (r : Rat × Rat) (hn : b.nonNeg = true)
+    (hs : ¬ 0 < b.scaling) (x : Rat) : 0 ≤ b.bound r x := bound_nonneg b r hn hs x
+
+/-- with bounding off the value is handed on as it is -/
+theorem bounding_off_identity (b : Bounding α) (r : α × α) (hn : b.nonNeg = false)
+    (hs : ¬ Num.zero < b.scaling) (x : α) : b.bound r x = x := bound_off b r hn hs x
+
+/-! ## the whole bias -/
+
+/-- Every criterion value of every known alternative (considered first, then not considered; criteria in
+    declared order, each with the range over all current alternatives) moves by at most `|f·v|` before
+    bounding, given draws in `[0,1)`; `f = 0` ⇒ the value handed to the bounding is the old one.
+    Criteria and method parameters are untouched; the report carries `f` and exactly the alternatives
+    handed on. -/
+theorem fatigue_blurs_within_ratio {f : Rat} {b : Bounding Rat} {cur res : DMP Rat} {vd sd : Draws Rat}
+    {rep : FatigueReport Rat} (h : fatigueBlur f b cur vd sd = .ok (res, rep))
+    (hd : ∀ u ∈ vd, 0 ≤ u ∧ u < 1) :
+    res.crit = cur.crit ∧ res.mp = cur.mp ∧ rep.f = f ∧ rep.co = res.co ∧ rep.nc = res.nc ∧
+    ∃ cr : List (Crit Rat × (Rat × Rat)), cr.map (·.1) = cur.crit ∧
+      (∀ c ∈ cr, valuesRange cur.all c.1 = .ok c.2) ∧
+      List.Forall₂ (MovedAlt f b cr) cur.co res.co ∧ List.Forall₂ (MovedAlt f b cr) cur.nc res.nc := by
+  obtain ⟨_, hc, hm, hf, hco, hnc, cr, hcr, h1, h2⟩ := fatigueBlur_ok h
+  have conv : ∀ a a', BlurredAlt f b cr vd sd a a' → MovedAlt f b cr a a' := by
+    intro a a' ⟨hid, hx⟩
+    refine ⟨hid, hx.imp ?_⟩
+    intro c kv ⟨hk, v, u, s, hv, hu, _, hkv⟩
+    refine ⟨hk, v, preBound f v u s, hv, by rw [hkv, blurValue_eq], ?_, ?_⟩
+    · exact preBound_close f v u s (hd u hu).1 (hd u hu).2
+    · intro hf0; subst hf0; exact preBound_zero v u s
+  obtain ⟨hcr1, hcr2⟩ := criteriaRanges_ok hcr
+  exact ⟨hc, hm, hf, hco, hnc, cr, hcr1, hcr2, h1.imp conv, h2.imp conv⟩
+
+/-- `f = 0` with bounding off leaves all data unchanged: every alternative holds, for every declared
+    criterion, exactly its old value -/
+theorem zero_ratio_leaves_data_unchanged {b : Bounding Rat} {cur res : DMP Rat} {vd sd : Draws Rat}
+    {rep : FatigueReport Rat} (h : fatigueBlur 0 b cur vd sd = .ok (res, rep))
+    (hn : b.nonNeg = false) (hs : ¬ 0 < b.scaling) :
+    ∀ l l', (l = cur.co ∧ l' = res.co) ∨ (l = cur.nc ∧ l' = res.nc) →
+      List.Forall₂ (fun a a' => a'.id = a.id ∧ a'.vals.keys = cur.crit.map (·.id) ∧
+        ∀ kv ∈ a'.vals, a.vals.get? kv.1 = some kv.2) l l' := by
+  obtain ⟨_, _, _, _, _, _, cr, hcr, h1, h2⟩ := fatigueBlur_ok h
+  obtain ⟨hcr1, _⟩ := criteriaRanges_ok hcr
+  have conv : ∀ a a', BlurredAlt 0 b cr vd sd a a' →
+      a'.id = a.id ∧ a'.vals.keys = cur.crit.map (·.id) ∧ ∀ kv ∈ a'.vals, a.vals.get? kv.1 = some kv.2 := by
+    intro a a' ⟨hid, hx⟩
+    refine ⟨hid, ?_, ?_⟩
+    · rw [← hcr1]
+      have : a'.vals.map (·.1) = cr.map (·.1.id) := forall₂_map_map (fun c kv h => h.1) hx
+      simpa [KMap.keys, List.map_map, Function.comp_def] using this
+    · intro kv hkv
+      obtain ⟨c, _, hk, v, u, s, hv, _, _, hval⟩ := forall₂_mem_right hx kv hkv
+      rw [hk, hv, hval, blurValue_eq, preBound_zero, bound_off b _ hn hs]
+  intro l l' hl
+  rcases hl with ⟨rfl, rfl⟩ | ⟨rfl, rfl⟩
+  · exact h1.imp conv
+  · exact h2.imp conv
+
+/-- as wired in `main.go` (both generators from the same factory and seed) every value is blurred with
+    ONE number `u`, used both as the magnitude draw and as the sign draw: the value moves up by `v·u·f`
+    when `u < ½` and down by `v·u·f` when `u ≥ ½` -/
+theorem one_stream_decides_magnitude_and_sign {f : Rat} {b : Bounding Rat} {cur res : DMP Rat}
+    {d : Draws Rat} {rep : FatigueReport Rat} (h : fatigueBlur f b cur d d = .ok (res, rep)) :
+    ∃ cr, biasACriteriaRanges cur = .ok cr ∧
+      List.Forall₂ (BlurredAltSame f b cr d) cur.co res.co ∧
+      List.Forall₂ (BlurredAltSame f b cr d) cur.nc res.nc ∧
+      ∀ (range : Rat × Rat) (v u : Rat),
+        (u < 1 / 2 → blurValue f b range v u u = b.bound range (v + v * u * f)) ∧
+        (1 / 2 ≤ u → blurValue f b range v u u = b.bound range (v - v * u * f)) := by
+  obtain ⟨cr, hcr, h1, h2⟩ := fatigueBlur_same h
+  refine ⟨cr, hcr, h1, h2, ?_⟩
+  intro range v u
+  exact ⟨fun hu => by rw [blurValue_eq, preBound_up f v u u hu],
+         fun hu => by rw [blurValue_eq, preBound_down f v u u hu]⟩
+
+/-! ## the spec the driver evaluates on the implementation's output, on the model's output -/
+
+/-- the per-value clause of `Spec.C17.check` (`valueOk`: move within `|f·v|`, inside the clipping
+    interval, non-negative when configured, identity at `f = 0` without bounding) holds for every value
+    the model produces — for every input with an ordered range -/
+theorem moved_value_satisfies_spec (f : Rat) (b : Bounding Rat) (r : Rat × Rat) (hr : r.1 ≤ r.2) (v u s : Rat)
+    (h0 : 0 ≤ u) (h1 : u < 1) : Spec.C17.valueOk f b r v (blurValue f b r v u s) = true := by
+  rw [blurValue_eq]
+  exact valueOk_of_moved f b r hr v _ (preBound_close f v u s h0 h1)
+    (fun hf => by subst hf; exact preBound_zero v u s)
+
+/-- the frame clause of `Spec.C17.check` (criteria and method parameters untouched) holds on the
+    model's output -/
+theorem frame_satisfies_spec {f : Rat} {b : Bounding Rat} {cur res : DMP Rat} {vd sd : Draws Rat}
+    {rep : FatigueReport Rat} (h : fatigueBlur f b cur vd sd = .ok (res, rep)) :
+    Spec.C17.frameOk cur res = true := fatigue_frameOk h
+
+/-
+  Not proved here:
+  * `Spec.C17.check (model output) = true` as one statement: proved are its per-value clause
+    (`moved_value_satisfies_spec`) and its frame clause (`frame_satisfies_spec`); report faithfulness is
+    `fatigue_blurs_within_ratio` (`rep.co = res.co`, `rep.nc = res.nc`, `rep.f = f`);
+  * anything about `math.Exp` beyond `exp 0 = 1` (`ratio_expFromZero_zero`): the formula of the ratio is
+    compared with 1e-12 relative tolerance by `check-c17-ratio` on every generated case;
+  * "the sign takes both directions over a run" is a statement about the generator; the model side is
+    `sign_both_directions` (which draw gives which direction), the run-level check is the oracle
+    `fatigue-sign-both-directions` of harness/main/c17.go.
+-/
+/-- the constants and names this property depends on were re-read from the working tree on this run
+    (none fell back to its pinned value because its declaration could not be located) -/
+theorem facts_fresh : (Rdm.Facts.staleFacts.all fun n => !["fatigueSignHalf", "fatigueConst", "fatigueExp", "wiringFatigueGenerators", "defaultBoundingScaling", "biasFatigue"].contains n) = true := by decide
+
 end Rdm.Props.C17
